@@ -1,16 +1,16 @@
 ---------------------------- MODULE ReqStatsGen ----------------------------
 (***************************************************************************)
 (* Behaviour emitter for ReqStats (C20): the same actions plus a history   *)
-(* variable.  Run with -simulate; a behaviour ends when the service is     *)
-(* stopped and quiescent, Finish prints it with the ghost counters the     *)
-(* module expects.  The replay (harness c20-reqstats) drives a real Redis  *)
-(* processor against gated cluster nodes: one node pair per request, one   *)
+(* variable.  Run with -simulate; a behaviour ends when Stop has returned, *)
+(* Finish prints it with the ghost counters the module expects.  The       *)
+(* replay (harness c20-reqstats) drives a real Redis processor against     *)
+(* gated cluster nodes: one node pair per request, one                     *)
 (* node for the refresher, so every completion order of the module is      *)
 (* feasible on FIFO backend connections.                                   *)
 (*                                                                         *)
 (* Restrictions of the emitter (not of the module):                        *)
-(*  - keyed requests are dispatched once the slot table is loaded (an      *)
-(*    empty table sends them to the refresher's node);                     *)
+(*  - keyed requests are dispatched to a backend once the slot table is    *)
+(*    loaded (an empty table sends them to the refresher's node);          *)
 (*  - a refresher at its select takes a pending trigger at once, in        *)
 (*    particular before the quit latch is closed (the replay cannot hold   *)
 (*    the select back nor make it prefer the quit signal; the other branch *)
@@ -20,6 +20,7 @@
 EXTENDS ReqStats, Sequences, Json
 
 CONSTANTS Locals,      \* emit requests answered by the proxy itself
+          Decodes,     \* emit the window of a session reader between decoding a request and dispatching it
           Triggers,    \* emit refresh triggers of the environment (host changes, timer)
           QuitWhen     \* "any" | "dispatched": stop only once every request has been dispatched
 
@@ -33,7 +34,7 @@ GenInit ==
   /\ Init /\ hist = <<>> /\ loaded = FALSE /\ finished = FALSE
   /\ ~Locals => \A r \in Reqs : known[r]
 
-Terminal == phase = "stopped" /\ Quiescent
+Terminal == phase = "stopped"
 
 Finish ==
   /\ ~finished /\ Terminal
@@ -49,22 +50,27 @@ Step ==
   \/ \E r \in Reqs :
        \/ \E ok \in BOOLEAN :
             \/ Locals /\ DispatchLocal(r, ok) /\ Log("DispatchLocal", r, ok)
+            \/ Locals /\ DispatchLocalAfterQuit(r, ok) /\ Log("DispatchLocalAfterQuit", r, ok)
             \/ Complete(r, ok) /\ Log("Complete", r, ok)
             \/ CompleteAfterQuit(r, ok) /\ Log("CompleteAfterQuit", r, ok)
+       \/ Decodes /\ SessionDecodes(r) /\ Log("SessionDecodes", r, TRUE)
        \/ loaded /\ DispatchForward(r) /\ Log("DispatchForward", r, TRUE)
+       \/ DispatchForwardAfterQuit(r) /\ Log("DispatchForwardAfterQuit", r, FALSE)
+       \/ ReaderTakes(r) /\ Log("ReaderTakes", r, TRUE)
        \/ Resend(r) /\ Log("Resend", r, TRUE)
        \/ ResendAfterQuit(r) /\ Log("ResendAfterQuit", r, FALSE)
        \/ Drain(r) /\ Log("Drain", r, FALSE)
   \/ Triggers /\ Trigger /\ Log("Trigger", 0, TRUE)
   \/ RefreshSend /\ Log("RefreshSend", 0, TRUE)
   \/ RefreshSendAfterQuit /\ Log("RefreshSendAfterQuit", 0, FALSE)
+  \/ ReaderTakesRefresh /\ Log("ReaderTakesRefresh", 0, TRUE)
   \/ \E ok \in BOOLEAN :
        \/ RefreshDone(ok) /\ Log("RefreshDone", 0, ok)
        \/ RefreshDoneAfterQuit(ok) /\ Log("RefreshDoneAfterQuit", 0, ok)
   \/ RefreshDrain /\ Log("RefreshDrain", 0, FALSE)
   \/ /\ QuitWhen = "dispatched" => \A r \in Reqs : st[r] # "new"
      /\ Quit /\ Log("Quit", 0, TRUE)
-  \/ ClientsStop /\ Log("ClientsStop", 0, TRUE)
+  \/ Stopped /\ Log("Stopped", 0, TRUE)
 
 \* a refresher at its select takes a trigger at once (the replay cannot hold it back)
 Eager == phase = "serving" /\ rf = "idle" /\ tok
